@@ -292,17 +292,21 @@ let oracle_d n ops obs =
   end
 
 (* ================================================================= dispatch *)
-let model = function
-  | ["q"; n; ops] -> model_q n ops
-  | ["o"; kind; n; ops] -> model_o kind n ops
-  | ["e"; ops] -> model_e ops
-  | ["d"; n; ops] -> model_d n ops
+(* a trailing word "lsan" asks the C++ side for a LeakSanitizer pass after the case; it does not change the case *)
+let strip_lsan w = match List.rev w with "lsan" :: r -> List.rev r | _ -> w
+(* every observation line starts with a one-letter kind word (Q, O, E, D) and a blank *)
+let model w = match strip_lsan w with
+  | ["q"; n; ops] -> "Q " ^ model_q n ops
+  | ["o"; kind; n; ops] -> "O " ^ model_o kind n ops
+  | ["e"; ops] -> "E " ^ model_e ops
+  | ["d"; n; ops] -> "D " ^ model_d n ops
   | _ -> "BADCASE"
 let oracle case obs =
-  match case with
-  | ["q"; n; ops] -> oracle_q n ops obs
-  | ["o"; kind; n; ops] -> oracle_o kind n ops obs
-  | ["e"; ops] -> oracle_e ops obs
-  | ["d"; n; ops] -> oracle_d n ops obs
+  let body k = if String.length obs >= 2 && String.sub obs 0 2 = k ^ " " then String.sub obs 2 (String.length obs - 2) else failwith "kind" in
+  match strip_lsan case with
+  | ["q"; n; ops] -> oracle_q n ops (body "Q")
+  | ["o"; kind; n; ops] -> oracle_o kind n ops (body "O")
+  | ["e"; ops] -> oracle_e ops (body "E")
+  | ["d"; n; ops] -> oracle_d n ops (body "D")
   | _ -> false
 let () = run_driver model oracle
